@@ -163,6 +163,7 @@ def run(storerun, rng, cfg, tier):
     tracer = r.last_tracer
     nlines = tracer.count if tracer is not None else 0
     nopens = r._open_count
+    nattrs = r._attr_count
     ntasks = r._task_count
     nchunks_prod = r._iter_chunks_seen
     r.stat("workloads")
@@ -175,14 +176,16 @@ def run(storerun, rng, cfg, tier):
     if stream is not None:
         n = gen.nbins_of(prod["layout"])
         placements += [p for p in gen.f1_placements(prod) if not (p["sub"] == "tril" and n < 2)]
-        placements += gen.f2_placements(prod)
+        placements += gen.f2_placements(prod, rng)
+        if prod["form"] in ("df", "dict") and not prod.get("unordered"):
+            placements.append({"kind": "F0", "sub": "badcolumn"})
     elif prod["op"] in ("merge", "coarsen"):
-        placements += [{"kind": "F2", "chunk": k} for k in range(nchunks_prod + 1)]
+        placements += [{"kind": "F2", "chunk": k, "exc": rng.choice(gen.F2_EXCEPTIONS)} for k in range(nchunks_prod + 1)]
     elif prod["op"] == "scool":
         for cell in sorted(prod["cells"]):
             body = {"chunks": prod["cells"][cell]["chunks"], "symmetric": prod["symmetric"]}
             n = gen.nbins_of(prod["layout"])
-            for p in [q for q in gen.f1_placements(body) if not (q["sub"] == "tril" and n < 2)] + gen.f2_placements(body):
+            for p in [q for q in gen.f1_placements(body) if not (q["sub"] == "tril" and n < 2)] + gen.f2_placements(body, rng):
                 p = dict(p)
                 p["cell"] = cell
                 placements.append(p)
@@ -190,6 +193,8 @@ def run(storerun, rng, cfg, tier):
     # a few bursts of consecutive failing opens (a lock held by another program for a while)
     for _ in range(min(4, nopens)):
         placements.append({"kind": "F4", "open": rng.randrange(nopens), "width": rng.choice([2, 3, 5])})
+    # every attribute write of the operation fails in turn (a full or failing disk at the very last step)
+    placements += [{"kind": "F9", "attr": j} for j in range(nattrs)]
     if prod["op"] == "coarsen" and prod.get("nproc", 1) > 1:
         placements += [{"kind": "F6", "task": t, "exc": rng.choice(["MemoryError", "OSError"])}
                        for t in range(ntasks)]
